@@ -357,6 +357,34 @@ static void encode(const json& v)
         const auto& go = R.groups.at(key);
         const std::uint64_t n = st["n"].get<std::uint64_t>();
         err = attempt([&] { ret = go.fill_header(p, size, ip, n); });
+        // the other API forms of the same step (ViewEmit.tla GroupForms)
+        if(st.contains("forms"))
+            for(const auto& fj : st["forms"])
+            {
+                const std::string form = fj.get<std::string>();
+                if(form == "fill")
+                    continue;
+                region regf(pre.size(), true);
+                regf.load(pre);
+                char* pf = regf.data() + v0;
+                std::ptrdiff_t retf = -1;
+                ::vh::group_form() = form;
+                const std::string ef = attempt([&] { retf = go.fill_header(pf, size, ip, n); });
+                ::vh::group_form() = "fill";
+                json csf = {{"msg", msg}, {"key", key}, {"op", op}, {"ip", st["ip"]}, {"form", form}, {"n", n},
+                            {"schema", g_schema}, {"aspect", "bytes"}, {"pre", hex(pre)}, {"expected", hex(post)}};
+                const std::string sigf = "encode/ghdr/" + g_schema + ":" + key + "/form=" + form;
+                if(!ef.empty())
+                    rep.mismatch(sigf + "/trap", ef, csf);
+                else if(regf.dump() != post)
+                {
+                    csf["got"] = hex(regf.dump());
+                    rep.mismatch(sigf, "group header written through `" + form
+                                           + "` differs from the SBE image", csf);
+                }
+                else
+                    rep.ok("encode-ghdr-form");
+            }
     }
     else if(op == "data")
     {
